@@ -1,6 +1,6 @@
 """Per-property plans for the tunnel-client checks (C03 C04 C05 C09 C10 C17)."""
 import json, os, time, re
-import vlib, tungen, tlcsched, tunnel_check
+import vlib, tungen, tlcsched, tunnel_check, router_props
 
 # exhaustive configurations (Tunnel.tla), spec x observer simulation configs (MC_Tun.tla)
 MC = {'C03': (['MC_C03_q.cfg', 'MC_C03_2s.cfg', 'MC_C03_tcp.cfg'], ['MC_C03_t.cfg', 'MC_C03_2s.cfg', 'MC_C03_tcp.cfg']),
@@ -144,6 +144,10 @@ def check(pid, tier):
         allres = [res]
         if real:
             allres.append(tunnel_check.drive_and_judge(w, binary, real, 'real', 'real'))
+        rruns = []
+        if pid == 'C17':   # the router half: bursts through knx.Router / knx.GroupRouter (real time)
+            rruns, rres = router_props.run_router(w, 'C17', tier, seed, binary)
+            allres.append(rres)
         if pid == 'C10' and tier == 'thorough':
             racebin = vlib.build_test(w, './drive/', w.path('drive_race.test'), race=True)
             rr = tunnel_check.drive_and_judge(w, binary, (bub + tlcruns)[:300], 'bubble', 'race', racebin=racebin)
@@ -173,7 +177,7 @@ def check(pid, tier):
             print('VIOLATION property=%s replay=%s' % (pid, replay))
             print('  clauses flagged: %s' % sorted(set(t for t, _ in viol)))
             rc = 1
-        allruns = bub + tlcruns + real
+        allruns = bub + tlcruns + real + rruns
         distinct = len(set(json.dumps(r['steps'], sort_keys=True) for r in allruns if len(r['steps']) > 2))
         cov = dict(states=states + simstates, transitions=trans, traces_validated_against_impl=nruns,
                    samples=[tunnel_check.sample_of(r) for r in (bub[:1] + tlcruns[:1] + real[:1])],
